@@ -447,7 +447,7 @@ var pfSchema = func() *Schema {
 		m.Fields = append(m.Fields, FieldSpec{Name: "f_" + k, JSON: "f_" + k, Num: i + 1, Kind: k, Card: "s", Pres: true, Oneof: "p" + strconv.Itoa(i), Ref: "-"})
 	}
 	m.Fields = append(m.Fields, FieldSpec{Name: "f_enum", JSON: "f_enum", Num: 30, Kind: "enum", Card: "s", Pres: true, Oneof: "p13", Ref: "PE"})
-	for i, w := range []string{"Int64Value", "Int32Value", "UInt64Value", "UInt32Value", "BoolValue", "StringValue", "BytesValue", "FieldMask"} {
+	for i, w := range []string{"Int64Value", "Int32Value", "UInt64Value", "UInt32Value", "BoolValue", "StringValue", "BytesValue", "FieldMask", "Duration"} {
 		m.Fields = append(m.Fields, FieldSpec{Name: "f_" + w, JSON: "f_" + w, Num: 40 + i, Kind: "message", Card: "s", Pres: true, Oneof: "-", Ref: "google.protobuf." + w})
 	}
 	s.Msgs = []MsgSpec{m}
